@@ -146,7 +146,7 @@ Fixpoint json_unmarshal_at (norm : str -> str) (fuel : nat) (j : jv) (t : ty) : 
                               else Err OtherError
                           end) m None None;
               match tb with
-              | (Some t', Some body) => match json_unmarshal_at norm f body t' with
+              | (Some t', Some body) => match json_unmarshal_at norm f body (strip_opt t') with   (* fix: commit bdce01e *)
                                         | Err _ => Err OtherError
                                         | r => r
                                         end
@@ -217,7 +217,7 @@ Definition json_unmarshal (norm : str -> str) (j : jv) (t : ty) : res value :=
   json_unmarshal_at norm (S (jv_size j)) j t.
 
 (* ---------------- ImpliedType ---------------- *)
-Fixpoint json_implied_type (j : jv) : res ty :=
+Fixpoint json_implied_type (norm : str -> str) (j : jv) : res ty :=
   match j with
   | JNull => Ok TDyn
   | JBool _ => Ok TBool
@@ -225,15 +225,15 @@ Fixpoint json_implied_type (j : jv) : res ty :=
   | JStr _ => Ok TStr
   | JArr l =>
       do ts <- (fix go (l : list jv) : res (list ty) :=
-                  match l with [] => Ok [] | x :: l' => do t <- json_implied_type x; do r <- go l'; Ok (t :: r) end) l;
+                  match l with [] => Ok [] | x :: l' => do t <- json_implied_type norm x; do r <- go l'; Ok (t :: r) end) l;
       Ok (TTuple ts)
   | JObj m =>
       (* a repeated property must have the same implied type; keys are normalised by cty.Object *)
       (fix go (l : list (str * jv)) (acc : list (str * ty)) : res ty :=
          match l with
-         | [] => Ok (TObj acc [])
+         | [] => Ok (TObj (fold_left (fun a kt => kv_insert (norm (fst kt)) (snd kt) a) acc []) [])   (* cty.Object normalises the names *)
          | kv :: l' =>
-             do t <- json_implied_type (snd kv);
+             do t <- json_implied_type norm (snd kv);
              match lookup (fst kv) acc with
              | Some t0 => if ty_equals t0 t then go l' acc else Err OtherError
              | None => go l' (kv_insert (fst kv) t acc)
